@@ -25,6 +25,19 @@ pub struct Opts {
     /// DWARF 5 only: rows name file 0 (the unit's primary file) or file 1
     pub file_index: u8,
     pub low_pc: LowPc,
+    pub range_form: RangeForm,
+}
+
+/// how function ends are written
+#[derive(Clone, Copy, Debug, PartialEq, Eq)]
+pub enum RangeForm {
+    /// DW_AT_high_pc as an offset from low_pc (what LLVM emits for subprograms)
+    Offset,
+    /// DW_AT_high_pc as an address (DW_FORM_addr)
+    Addr,
+    /// offset-form subprograms plus a DW_AT_ranges list on the unit with one (begin, end) address
+    /// pair per function (what LLVM emits for multi-function units)
+    UnitRanges,
 }
 
 /// ordinal (line number) of operator #k of local function #f (input function index)
@@ -98,6 +111,12 @@ pub fn synthesize(m: &WModule, o: Opts) -> Result<Vec<(String, Vec<u8>)>, String
         r.set(gimli::DW_AT_stmt_list, AttributeValue::LineProgramRef);
         r.set(gimli::DW_AT_low_pc, AttributeValue::Address(Address::Constant(0)));
     }
+    if o.range_form == RangeForm::UnitRanges {
+        use gimli::write::{Range, RangeList};
+        let list: Vec<Range> = locals.iter().map(|(_, b)| Range::StartEnd { begin: Address::Constant(b.body.start - base), end: Address::Constant(b.body.end - base) }).collect();
+        let id = dwarf.unit.ranges.add(RangeList(list));
+        dwarf.unit.get_mut(root).set(gimli::DW_AT_ranges, AttributeValue::RangeListRef(id));
+    }
     for (fi, b) in &locals {
         let id = dwarf.unit.add(root, gimli::DW_TAG_subprogram);
         let name = dwarf.strings.add(format!("fn{}", fi).into_bytes());
@@ -108,7 +127,11 @@ pub fn synthesize(m: &WModule, o: Opts) -> Result<Vec<(String, Vec<u8>)>, String
         let e = dwarf.unit.get_mut(id);
         e.set(gimli::DW_AT_name, AttributeValue::StringRef(name));
         e.set(gimli::DW_AT_low_pc, AttributeValue::Address(Address::Constant(low)));
-        e.set(gimli::DW_AT_high_pc, AttributeValue::Udata(len));
+        if o.range_form == RangeForm::Addr {
+            e.set(gimli::DW_AT_high_pc, AttributeValue::Address(Address::Constant(low + len)));
+        } else {
+            e.set(gimli::DW_AT_high_pc, AttributeValue::Udata(len));
+        }
     }
     let mut sections = Sections::new(EndianVec::new(LittleEndian));
     dwarf.write(&mut sections).map_err(|e| format!("gimli write: {}", e))?;
@@ -127,7 +150,7 @@ pub fn synthesize(m: &WModule, o: Opts) -> Result<Vec<(String, Vec<u8>)>, String
 /// a minimal well-formed DWARF for C14's "input has DWARF" dimension
 pub fn minimal_sections(wasm: &[u8]) -> Vec<(String, Vec<u8>)> {
     match wmodel::decode(wasm) {
-        Ok(m) => synthesize(&m, Opts { version: 4, one_sequence: false, file_index: 0, low_pc: LowPc::Body }).unwrap_or_default(),
+        Ok(m) => synthesize(&m, Opts { version: 4, one_sequence: false, file_index: 0, low_pc: LowPc::Body, range_form: RangeForm::Offset }).unwrap_or_default(),
         Err(_) => vec![],
     }
 }
@@ -148,6 +171,9 @@ pub struct ReadBack {
     /// (name, low_pc, high_pc as length)
     pub subprograms: Vec<(String, u64, u64)>,
     pub version: u16,
+    /// the unit's DW_AT_ranges list as (begin, end), raw (tombstoned and empty pairs included);
+    /// Err = the list is malformed
+    pub unit_ranges: Option<Result<Vec<(u64, u64)>, String>>,
 }
 
 pub fn read_back(sections: &BTreeMap<String, Vec<u8>>) -> Result<ReadBack, String> {
@@ -183,6 +209,37 @@ pub fn read_back(sections: &BTreeMap<String, Vec<u8>>) -> Result<ReadBack, Strin
                     },
                     end_sequence: row.end_sequence(),
                 });
+            }
+        }
+        {
+            let mut cur = unit.entries();
+            if let Ok(Some((_, root))) = cur.next_dfs() {
+                if let Ok(Some(AV::RangeListsRef(off))) = root.attr_value(gimli::DW_AT_ranges) {
+                    let off = dwarf.ranges_offset_from_raw(&unit, off);
+                    let mut v = vec![];
+                    let mut err = None;
+                    match dwarf.raw_ranges(&unit, off) {
+                        Ok(mut it) => loop {
+                            match it.next() {
+                                Ok(Some(gimli::read::RawRngListEntry::AddressOrOffsetPair { begin, end }))
+                                | Ok(Some(gimli::read::RawRngListEntry::OffsetPair { begin, end }))
+                                | Ok(Some(gimli::read::RawRngListEntry::StartEnd { begin, end })) => v.push((begin, end)),
+                                Ok(Some(gimli::read::RawRngListEntry::StartLength { begin, length })) => v.push((begin, begin + length)),
+                                Ok(Some(_)) => {}
+                                Ok(None) => break,
+                                Err(e) => {
+                                    err = Some(e.to_string());
+                                    break;
+                                }
+                            }
+                        },
+                        Err(e) => err = Some(e.to_string()),
+                    }
+                    rb.unit_ranges = Some(match err {
+                        Some(e) => Err(e),
+                        None => Ok(v),
+                    });
+                }
             }
         }
         let mut entries = unit.entries();
